@@ -644,11 +644,18 @@ fn EmitUncompressedMetaBlock(
     storage_ix: &mut usize,
     storage: &mut [u8],
 ) {
-    store_meta_block_header(input_size, true, storage_ix, storage);
-    *storage_ix = storage_ix.wrapping_add(7u32 as usize) & !7u32 as usize;
-    memcpy(storage, (*storage_ix >> 3), input, 0, input_size);
-    *storage_ix = storage_ix.wrapping_add(input_size << 3);
-    storage[(*storage_ix >> 3)] = 0u8;
+    // a meta-block holds at most 1 << 24 bytes; with large windows a fragment can be longer
+    let mut offset: usize = 0;
+    while offset < input_size {
+        let chunk = min(input_size - offset, 1usize << 24);
+        store_meta_block_header(chunk, true, storage_ix, storage);
+        *storage_ix = storage_ix.wrapping_add(7u32 as usize) & !7u32 as usize;
+        memcpy(storage, (*storage_ix >> 3), input, offset, chunk);
+        *storage_ix = storage_ix.wrapping_add(chunk << 3);
+        // the next write ORs into this byte, which may still hold abandoned compressed output
+        storage[(*storage_ix >> 3)] = 0u8;
+        offset += chunk;
+    }
 }
 
 #[allow(unused_variables)]
